@@ -272,8 +272,8 @@ claim("C13",
       "`, ` / `; `); C13_message_style_statement; C13_ref_key; C13_pieces. Tie: "
       "structured statements over the key-value grammar with the property-text oracle on finder, model and binary; "
       "unusable refs reported as such and left alone.",
-      "Known finding F10b (a comment between the ref value and its delimiter makes the reference unusable) is replayed "
-      "and reported as KNOWN-FINDING." + PARSER_NOTE + COMMON_NOTE,
+      "The former finding F10b (a comment between the ref value and its delimiter made the reference unusable) is repaired "
+      "(fix 4af6beb, theorem C13_ref_value_with_layout); its inputs are still replayed every run." + PARSER_NOTE + COMMON_NOTE,
       "Coq proof (rule lemmas for the argument rules on the generated grammar + glue specification; file-level parser specification theorem) + oracle-based differential campaign",
       "DESIGN.md section 6, C13")
 
